@@ -72,8 +72,55 @@ type c05Stream struct {
 
 // c05RunStream runs the real Compiler.Stream against the real
 // circuit.StreamEvaluator over an in-memory connection pair with a watchdog.
-func c05RunStream(src string, gIn, eIn []string, rng *RNG, frag int, timeout time.Duration) *c05Stream {
+// c05StreamOpt selects the less-travelled entry points / options of a session.
+type c05StreamOpt struct {
+	eVals       []interface{} // evaluator input as Go values (StreamEvaluator's inputValues) instead of strings
+	eSizes      []int         // input sizes the evaluator announces in that case
+	eLeaves     []*big.Int    // the same input per flattened argument member, packed by the harness (whole circuit)
+	file        bool          // Compiler.StreamFile instead of Compiler.Stream
+	verbose     bool          // params.Verbose and StreamEvaluator(verbose)
+	diagnostics bool          // params.Diagnostics
+	dot         bool          // params.SSADotOut
+	multArray   int           // params.CircMultArrayTreshold (0 = default)
+	maxUnroll   int           // params.MaxLoopUnroll (0 = default)
+}
+
+func (o c05StreamOpt) String() string {
+	var s []string
+	if o.eVals != nil {
+		s = append(s, "input-values")
+	}
+	if o.file {
+		s = append(s, "StreamFile")
+	}
+	if o.verbose {
+		s = append(s, "verbose")
+	}
+	if o.diagnostics {
+		s = append(s, "diagnostics")
+	}
+	if o.dot {
+		s = append(s, "ssa-dot")
+	}
+	if o.multArray != 0 {
+		s = append(s, fmt.Sprintf("mult-array-treshold=%d", o.multArray))
+	}
+	if o.maxUnroll != 0 {
+		s = append(s, fmt.Sprintf("max-loop-unroll=%d", o.maxUnroll))
+	}
+	return strings.Join(s, "+")
+}
+
+func c05RunStream(src string, gIn, eIn []string, opt c05StreamOpt, rng *RNG, frag int, timeout time.Duration) *c05Stream {
 	res := &c05Stream{}
+	if opt.verbose || opt.diagnostics {
+		// these modes print progress and statistics: keep the harness output clean
+		if null, err := os.OpenFile(os.DevNull, os.O_WRONLY, 0); err == nil {
+			old := os.Stdout
+			os.Stdout = null
+			defer func() { os.Stdout = old; null.Close() }()
+		}
+	}
 	start := time.Now()
 	ga, ea, g2e, e2g := newDuplexPair(rng, frag)
 	gConn := p2p.NewConn(ga)
@@ -106,7 +153,30 @@ func c05RunStream(src string, gIn, eIn []string, rng *RNG, frag int, timeout tim
 		params := utils.NewParams()
 		params.Config = &env.Config{Rand: grand}
 		params.SSAOut = ssaBuf
+		params.Verbose = opt.verbose
+		params.Diagnostics = opt.diagnostics
+		if opt.dot {
+			params.SSADotOut = &c05Buf{}
+		}
+		if opt.multArray != 0 {
+			params.CircMultArrayTreshold = opt.multArray
+		}
+		if opt.maxUnroll != 0 {
+			params.MaxLoopUnroll = opt.maxUnroll
+		}
 		defer params.Close()
+		if opt.file {
+			f, err := os.CreateTemp("", "c05-*.mpcl")
+			if err != nil {
+				res.gErr = err
+				return
+			}
+			defer os.Remove(f.Name())
+			f.WriteString(src)
+			f.Close()
+			res.gOut, res.gRes, res.gErr = compiler.New(params).StreamFile(gConn, spy, f.Name(), gIn, [][]int{sizes0, sizes1})
+			return
+		}
 		res.gOut, res.gRes, res.gErr = compiler.New(params).Stream(gConn, spy, "{data}",
 			strings.NewReader(src), gIn, [][]int{sizes0, sizes1})
 	}()
@@ -119,6 +189,9 @@ func c05RunStream(src string, gIn, eIn []string, rng *RNG, frag int, timeout tim
 			}
 		}()
 		sizes, err := circuit.InputSizes(eIn)
+		if opt.eVals != nil {
+			sizes, err = opt.eSizes, nil
+		}
 		if err != nil {
 			res.eErr = err
 			return
@@ -131,7 +204,12 @@ func c05RunStream(src string, gIn, eIn []string, rng *RNG, frag int, timeout tim
 			res.eErr = err
 			return
 		}
-		res.eOut, res.eRes, res.eErr = circuit.StreamEvaluator(eConn, ot.NewCO(rng.Fork()), eIn, nil, false)
+		if opt.eVals != nil {
+			// the value entry: inputFlag empty, inputValues set
+			res.eOut, res.eRes, res.eErr = circuit.StreamEvaluator(eConn, ot.NewCO(rng.Fork()), nil, opt.eVals, opt.verbose)
+			return
+		}
+		res.eOut, res.eRes, res.eErr = circuit.StreamEvaluator(eConn, ot.NewCO(rng.Fork()), eIn, nil, opt.verbose)
 	}()
 	done := make(chan struct{})
 	go func() { wg.Wait(); close(done) }()
@@ -193,7 +271,7 @@ type c05Whole struct {
 }
 
 // c05RunWhole compiles the same program into one circuit and evaluates it.
-func c05RunWhole(src string, gIn, eIn []string) (w c05Whole) {
+func c05RunWhole(src string, gIn, eIn []string, opt c05StreamOpt) (w c05Whole) {
 	defer func() {
 		if r := recover(); r != nil {
 			w.err = fmt.Errorf("panic: %v", r)
@@ -205,11 +283,20 @@ func c05RunWhole(src string, gIn, eIn []string) (w c05Whole) {
 		return
 	}
 	sizes1, err := circuit.InputSizes(eIn)
+	if opt.eVals != nil {
+		sizes1, err = opt.eSizes, nil
+	}
 	if err != nil {
 		w.err = err
 		return
 	}
 	params := utils.NewParams()
+	if opt.multArray != 0 {
+		params.CircMultArrayTreshold = opt.multArray
+	}
+	if opt.maxUnroll != 0 {
+		params.MaxLoopUnroll = opt.maxUnroll
+	}
 	defer params.Close()
 	circ, _, err := compiler.New(params).Compile(src, [][]int{sizes0, sizes1})
 	if err != nil {
@@ -223,6 +310,20 @@ func c05RunWhole(src string, gIn, eIn []string) (w c05Whole) {
 	x, err := circ.Inputs[0].Parse(gIn)
 	if err != nil {
 		w.err = err
+		return
+	}
+	if opt.eVals != nil {
+		// the evaluator's input was given as values: one number per flattened member,
+		// packed by the harness itself (not by IOArg.Set)
+		var ins []*big.Int
+		if len(circ.Inputs[0].Compound) > 0 {
+			ins = append(ins, circ.Inputs[0].Compound.Split(x)...)
+		} else {
+			ins = append(ins, x)
+		}
+		ins = append(ins, opt.eLeaves...)
+		w.res, w.err = circ.Compute(ins)
+		w.out = circ.Outputs
 		return
 	}
 	y, err := circ.Inputs[1].Parse(eIn)
@@ -483,6 +584,8 @@ type c05ReplayRec struct {
 	Src       string         `json:"src"`
 	G         []string       `json:"g"`
 	E         []string       `json:"e"`
+	EValues   string         `json:"evaluator_input_values,omitempty"`
+	Entry     string         `json:"entry_options,omitempty"`
 	Stream    string         `json:"stream_garbler"`
 	StreamE   string         `json:"stream_evaluator"`
 	Whole     string         `json:"whole"`
@@ -521,12 +624,18 @@ func c05Classify(pre []c05Premature) string {
 // the run is clean, records the correspondence case.
 func c05Program(c *Ctx, idx int, name string, p c05Prog, frag int) error {
 	r := c.rng.Fork()
-	s := c05RunStream(p.src, p.g, p.e, r, frag, 120*time.Second)
-	w := c05RunWhole(p.src, p.g, p.e)
-	rec := c05ReplayRec{Seed: c.Seed, Case: idx, Src: p.src, G: p.g, E: p.e,
+	s := c05RunStream(p.src, p.g, p.e, p.opt, r, frag, 120*time.Second)
+	w := c05RunWhole(p.src, p.g, p.e, p.opt)
+	if o := p.opt.String(); o != "" {
+		c.Hist("entry:" + o)
+	}
+	rec := c05ReplayRec{Seed: c.Seed, Case: idx, Src: p.src, G: p.g, E: p.e, Entry: p.opt.String(),
 		Stream: bigsString(s.gRes), StreamE: bigsString(s.eRes), Whole: bigsString(w.res),
 		TypesG: c05IOString(s.gOut), TypesE: c05IOString(s.eOut), TypesW: c05IOString(w.out),
 		Cmd: "harness c05 -replay <this file>"}
+	if p.opt.eVals != nil {
+		rec.EValues = fmt.Sprintf("%#v", p.opt.eVals)
+	}
 	if s.gErr != nil {
 		rec.GErr = s.gErr.Error()
 	}
@@ -549,7 +658,10 @@ func c05Program(c *Ctx, idx int, name string, p c05Prog, frag int) error {
 	}
 	sizes0, _ := circuit.InputSizes(p.g)
 	sizes1, _ := circuit.InputSizes(p.e)
-	ex, exErr := c05Export(p.src, [][]int{sizes0, sizes1})
+	if p.opt.eVals != nil {
+		sizes1 = p.opt.eSizes
+	}
+	ex, exErr := c05Export(p.src, [][]int{sizes0, sizes1}, p.opt)
 	if exErr == nil {
 		rec.Premature = ex.premature
 	}
@@ -565,6 +677,12 @@ func c05Program(c *Ctx, idx int, name string, p c05Prog, frag int) error {
 		what = fmt.Sprintf("streamed result %s differs from whole-circuit result %s", bigsString(s.gRes), bigsString(w.res))
 		if exErr == nil {
 			bad = c05Classify(ex.premature)
+		}
+		if bad == "" && name == "entry" && p.opt.eVals != nil {
+			bad = "c05:stream:input-values-entry:wrong-output"
+		}
+		if bad == "" && name == "entry" {
+			bad = "c05:stream:entry-option:" + p.opt.String() + ":wrong-output"
 		}
 		if bad == "" && name == "sign-resize" {
 			bad = "c05:stream:resize-memo:sign-vs-zero-extension:wrong-output"
@@ -646,7 +764,7 @@ func c05Program(c *Ctx, idx int, name string, p c05Prog, frag int) error {
 	hdr := append([]byte{1}, s.g2e[36:hdrEnd]...)
 	x, _ := s.gOut, 0
 	_ = x
-	gx := c05ParseIn(p.src, p.g, p.e, [][]int{sizes0, sizes1})
+	gx := c05ParseIn(p.src, p.g, p.e, p.opt, [][]int{sizes0, sizes1})
 	if gx == nil {
 		return fmt.Errorf("case %d: cannot parse inputs", idx)
 	}
@@ -712,7 +830,7 @@ type c05Inputs struct {
 }
 
 // c05ParseIn re-derives the program signature and both parties' input bits.
-func c05ParseIn(src string, g, e []string, sizes [][]int) *c05Inputs {
+func c05ParseIn(src string, g, e []string, opt c05StreamOpt, sizes [][]int) *c05Inputs {
 	params := utils.NewParams()
 	defer params.Close()
 	prog, _, err := compiler.New(params).CompileSSA("{data}", strings.NewReader(src), sizes)
@@ -723,9 +841,24 @@ func c05ParseIn(src string, g, e []string, sizes [][]int) *c05Inputs {
 	if err != nil {
 		return nil
 	}
-	y, err := prog.Inputs[1].Parse(e)
-	if err != nil {
-		return nil
+	var y *big.Int
+	if opt.eVals != nil {
+		// value entry: the members packed at their declared offsets by the harness
+		y = new(big.Int)
+		ofs := 0
+		members := prog.Inputs[1].Compound
+		if len(members) != len(opt.eLeaves) {
+			return nil
+		}
+		for i, m := range members {
+			y.Or(y, new(big.Int).Lsh(opt.eLeaves[i], uint(ofs)))
+			ofs += int(m.Type.Bits)
+		}
+	} else {
+		y, err = prog.Inputs[1].Parse(e)
+		if err != nil {
+			return nil
+		}
 	}
 	res := &c05Inputs{in0: prog.Inputs[0], in1: prog.Inputs[1], outs: prog.Outputs, steps: make([]int, len(prog.Steps))}
 	for i := 0; i < int(prog.Inputs[0].Type.Bits); i++ {
@@ -754,6 +887,13 @@ func runC05(c *Ctx) error {
 	// permanent wire ids all stay below 65536
 	for i := 0; i < c.N(1, 3); i++ {
 		if err := c05Program(c, idx, "big-circuit", c05BigProg(c.rng.Fork(), i), 0); err != nil {
+			return err
+		}
+		idx++
+	}
+	// less-travelled entry points: evaluator input as Go values, StreamFile, options
+	for _, p := range c05EntryPrograms(c) {
+		if err := c05Program(c, idx, "entry", p, 0); err != nil {
 			return err
 		}
 		idx++
@@ -828,8 +968,8 @@ func c05Replay(c *Ctx) error {
 	if err := json.Unmarshal(data, &rp); err != nil {
 		return err
 	}
-	s := c05RunStream(rp.Src, rp.G, rp.E, c.rng.Fork(), 0, 120*time.Second)
-	w := c05RunWhole(rp.Src, rp.G, rp.E)
+	s := c05RunStream(rp.Src, rp.G, rp.E, c05StreamOpt{}, c.rng.Fork(), 0, 120*time.Second)
+	w := c05RunWhole(rp.Src, rp.G, rp.E, c05StreamOpt{})
 	fmt.Printf("stream: g=%s (%s) e=%s (%s) gErr=%v eErr=%v stalled=%v\nwhole:  %s (%s) err=%v\n",
 		bigsString(s.gRes), c05IOString(s.gOut), bigsString(s.eRes), c05IOString(s.eOut), s.gErr, s.eErr, s.stalled,
 		bigsString(w.res), c05IOString(w.out), w.err)
